@@ -85,9 +85,9 @@ def confirm(seed):
     return res
 
 
-def runmany(pairs, tier='quick', out='/tmp/seedruns.json'):
+def runmany(pairs, tier='quick', out='/tmp/seedruns.json', slot=''):
     """pairs: [(seed, property)]. One persistent scratch worktree and build directory (incremental builds); results appended to `out`."""
-    wt = '/tmp/seedrun/wt'
+    wt = '/tmp/seedrun/wt' + slot
     os.makedirs('/tmp/seedrun', exist_ok=True)
     if not os.path.exists(wt):
         rc, o = sh('git -C /repo worktree add --detach %s HEAD' % wt); assert rc == 0, o
@@ -95,15 +95,15 @@ def runmany(pairs, tier='quick', out='/tmp/seedruns.json'):
         sh('git -C %s checkout -q --detach %s && git -C %s checkout -- .' % (wt, sh('git -C /repo rev-parse HEAD')[1].strip(), wt))
     results = json.load(open(out)) if os.path.exists(out) else {}
     for seed, prop in pairs:
-        d = os.path.join(SEEDED, seed)
+        patch = seed if seed.startswith('/') else os.path.join(SEEDED, seed, 'patch.diff')   # a path: any patch file (e.g. a behaviour-preserving refactoring)
         sh('git -C %s checkout -- . && git -C %s clean -fdq -e .vbuild' % (wt, wt))
-        rc, o = sh('git -C %s apply %s/patch.diff' % (wt, d))
+        rc, o = sh('git -C %s apply %s' % (wt, patch))
         if rc != 0:
             print('seed %s: PATCH DOES NOT APPLY: %s' % (seed, o[:200]), flush=True)
             results['%s/%s' % (seed, prop)] = {'exit': None, 'note': 'patch does not apply to HEAD'}
             continue
         t0 = time.time()
-        rc, o = sh('VERIF_REPO=%s VERIF_BUILD=/tmp/seedrun/build ./check %s --tier %s' % (wt, prop, tier), cwd='/verif', timeout=7200)
+        rc, o = sh('VERIF_REPO=%s VERIF_BUILD=/tmp/seedrun/build%s ./check %s --tier %s' % (wt, slot, prop, tier), cwd='/verif', timeout=7200)
         dt = time.time() - t0
         lines = [l for l in o.split('\n') if l.startswith(('VIOLATION', 'RESULT', 'INCONCLUSIVE', 'KNOWN', '  what'))]
         print('seed %s property %s tier %s -> exit %d (%.0fs)' % (seed, prop, tier, rc, dt), flush=True)
@@ -122,6 +122,8 @@ if __name__ == '__main__':
     elif sys.argv[1] == 'runmany':
         tier = sys.argv[sys.argv.index('--tier') + 1] if '--tier' in sys.argv else 'quick'
         pairs = [a.split(':') for a in sys.argv[2:] if ':' in a]
-        runmany(pairs, tier)
+        out = sys.argv[sys.argv.index('--out') + 1] if '--out' in sys.argv else '/tmp/seedruns.json'
+        slot = sys.argv[sys.argv.index('--slot') + 1] if '--slot' in sys.argv else ''
+        runmany(pairs, tier, out, slot)
     elif sys.argv[1] == 'confirm':
         confirm(sys.argv[2])
